@@ -1,6 +1,6 @@
 """C20 — optimiser trajectories return exactly what was stored, in memory or on disk (DESIGN 6/C20).
 
-Tie: coq/C20/Model.v is a hand-written state machine of OptimiserHistory (base.py:916-1214) with the
+Tie: coq/C20/Model.v is a hand-written state machine of OptimiserHistory (base.py:916-1218) with the
 trajectory zip file as part of the state.  Every run
   1. re-checks the theorems of coq/C20/Props.v (refinement to the list of pushed items),
   2. replays on the real class the inputs of the three defects repaired by /repo commit 24aa35f
@@ -43,6 +43,8 @@ TRUSTED_BASE = [
     "python zipfile/os/pickle, the harness' observation + encoding code (mirrored by coq/C20/Corr.v)",
 ]
 ASSUMPTIONS = [
+    "a stop INSIDE one operation is not modelled: that one ZipFile session is all-or-unreadable is assumed and only probed (simulated stops); crash_prefix_partial covers stops between operations",
+    "retrieval theorems presuppose a backing file (open() before the (maxlen+1)-th add); without one the class documents that older entries are lost (None) - every_index_without_file_refuted",
     "items and parameter dicts are opaque to the model; window sizes maxlen >= 1 (maxlen=None behaves as a window larger than the run)",
     "theorems quantify over one life of one object (no clean_up, no replacement by a reloaded object); sequences outside that are covered by the correspondence only",
     "the model's 'unreadable file => ValueError' stands for {ValueError, zipfile.BadZipFile} on the implementation",
@@ -68,7 +70,22 @@ PINS = [("autode/opt/optimisers/base.py", "OptimiserHistory." + m) for m in (
     ("autode/calculations/executors.py", "CalculationExecutorO._opt_trajectory_name"),
     ("autode/calculations/executors.py", "CalculationExecutorO._opt_trajectory_exists"),
     ("autode/calculations/executors.py", "CalculationExecutorO._set_properties_from_optimiser"),
-]
+    ("autode/opt/optimisers/base.py", "Optimiser.run"),
+    ("autode/opt/optimisers/base.py", "Optimiser._coords"),
+    ("autode/opt/optimisers/base.py", "NDOptimiser.optimiser_params"),
+    # what is stored is a pickle of the coordinate object / the parameter dict: the hooks that decide what a pickle
+    # contains (present or ABSENT today - an added hook changes the hash from None)
+    ("autode/values.py", "ValueArray.__new__"),
+    ("autode/opt/coordinates/base.py", "OptCoordinates.__new__"),
+    ("autode/opt/coordinates/base.py", "OptCoordinates.__array_finalize__"),
+    ("autode/opt/coordinates/cartesian.py", "CartesianCoordinates.__new__"),
+    ("autode/opt/coordinates/cartesian.py", "CartesianCoordinates.__array_finalize__"),
+] + [(f, f"{c}.{m}") for f, c in (("autode/values.py", "ValueArray"), ("autode/values.py", "Value"),
+                                  ("autode/opt/coordinates/base.py", "OptCoordinates"),
+                                  ("autode/opt/coordinates/cartesian.py", "CartesianCoordinates"),
+                                  ("autode/opt/coordinates/dic.py", "DIC"),
+                                  ("autode/opt/optimisers/base.py", "ConvergenceParams"))
+     for m in ("__reduce__", "__reduce_ex__", "__getstate__", "__setstate__", "__copy__", "__deepcopy__")]
 
 SLICE = ["C20/Model.v", "C20/Lemmas.v", "C20/Props.v", "C20/Corr.v"]
 PRE = ("From Coq Require Import List ZArith NArith Bool.\nFrom AV.lib Require Import QcInst.\n"
@@ -87,10 +104,16 @@ E_BADZIP, E_OTHER, C_CORRUPT, C_NONE, C_DONE = 124, 127, 15, 9, 10
 CLEAN_LOAD_ERRORS = (E_NOTFOUND, E_VALUE, E_BADZIP)
 
 
+_ECLS = [(zipfile.BadZipFile, E_BADZIP), (FileExistsError, E_EXISTS), (FileNotFoundError, E_NOTFOUND),
+         (RuntimeError, E_RUNTIME), (IndexError, E_INDEX), (KeyError, E_KEY), (ValueError, E_VALUE), (TypeError, E_TYPE)]
+
+
 def _ecode(e):
-    return {RuntimeError: E_RUNTIME, IndexError: E_INDEX, FileExistsError: E_EXISTS,
-            FileNotFoundError: E_NOTFOUND, ValueError: E_VALUE, KeyError: E_KEY, TypeError: E_TYPE,
-            zipfile.BadZipFile: E_BADZIP}.get(type(e), E_OTHER)
+    """documented exception class (a subclass counts as its documented base)"""
+    for c, k in _ECLS:
+        if isinstance(e, c):
+            return k
+    return E_OTHER
 
 
 ENAME = {1: "RuntimeError", 2: "IndexError", 3: "FileExistsError", 4: "FileNotFoundError", 5: "ValueError",
@@ -309,11 +332,16 @@ class _Spy:
 class _IOProxy:
     """stands in for the `io` module inside zipfile: binary files opened for writing are spied on"""
     rec = None
+    fail_writes = None      # an exception to raise instead of opening a file for writing (fault injection)
+    fail_hit = False
 
     def __getattr__(self, k):
         return getattr(io, k)
 
     def open(self, file, mode="r", *a, **k):
+        if self.fail_writes is not None and "b" in mode and any(c in mode for c in "wa+x"):
+            self.fail_hit = True
+            raise self.fail_writes
         f = io.open(file, mode, *a, **k)
         if self.rec is not None and "b" in mode and any(c in mode for c in "wa+x") and isinstance(file, (str, bytes, os.PathLike)):
             return _Spy(f, file, self)
@@ -500,8 +528,8 @@ class Impl:
                     self.P = self.P[:len(new)]
                 self.opened_at, self.ml_eff, self.nclose = 0, 2, max(self.nclose, 1)
             elif op == "U":
-                self.single = False
                 h.clean_up()
+                self.single = False          # the file was removed under the live object
             return C_DONE, None
         except Exception as e:  # noqa
             return _ecode(e), type(e).__name__
@@ -565,7 +593,7 @@ class Impl:
             fail("foreign-file-accepted", f"load of (missing, non-zip, zip without header) gave {[cname(c) for c in foreign]}; "
                  "FileNotFoundError, ValueError, ValueError are documented")
         if not self.single:
-            return fails
+            return fails + self.oracles_after_clean_up(op, code, pre, s, ld, lds, state_flat)
         P, ml, n = self.P, self.ml_eff, len(self.P)
         late = self.opened_at is not None and self.opened_at > ml     # an open was accepted after entries were dropped
         ncoords = count_coords(fs)
@@ -655,6 +683,41 @@ class Impl:
                                   or lds["penult"] != (16 + P[-2] if n >= 2 else E_INDEX)):
                 fail("roundtrip", f"closed and reloaded: len {k} vs {n}, final {cname(lds['final'])}, penultimate "
                      f"{cname(lds['penult'])}; pushed {P}", cls)
+        return fails
+
+    def oracles_after_clean_up(self, op, code, pre, s, ld, lds, state_flat):
+        """clean_up() removed the file under the live object.  What the property still demands: the length is the
+        number of accepted adds, an operation that raises changes nothing, a valid index gives the pushed entry or
+        an error (never another entry, never None with a file name set), whatever load() returns is a prefix."""
+        fails = []
+        P, ml, n = self.P, self.ml_eff, len(self.P)
+        K = "OptimiserHistory|after-clean_up:"
+        unchanged = pre["flat"] is None or pre["flat"] == state_flat
+        if pre["single"]:
+            return fails                     # this was the clean_up itself
+        if code != C_DONE and not unchanged and op != "L":
+            fails.append((K + f"raising-{op}-changed-state", "raise-unchanged",
+                          f"{op} raised {cname(code)} but changed the trajectory (len {s['len']}, closed {s['closed']}, "
+                          f"{len(s['mem'])} in memory) - {n} adds were accepted"))
+        if s["len"] != n:
+            fails.append((K + "len", "len", f"len() = {s['len']} after {n} accepted adds"))
+            return fails                     # every index is shifted by the wrong length: one defect, one key
+        nn = s["len_"]
+        for z, got in zip(range(-(nn + 1), nn + 2), s["get"]):
+            if not (-n <= z < n):
+                continue
+            want = 16 + P[z]
+            if got != want and (got >= 16 or got == C_NONE or (s["len"] == n and (z % n) >= n - ml)):
+                fails.append((K + "wrong-entry", "getitem", f"[{z}] gives {cname(got)}; pushed {P} (maxlen {ml}) requires "
+                              f"{cname(want)} or, for an entry that had been spilled, an error"))
+                break
+        its = s["iter"][1:-1]
+        if its != [16 + t for t in P[:len(its)]]:
+            fails.append((K + "wrong-entry", "iter", f"iteration yields {[cname(c) for c in its]}; pushed {P}"))
+        if lds is not None:
+            k = lds["len"]
+            if lds["iter"] != [k] + [16 + t for t in P[:k]] + [C_DONE]:
+                fails.append((K + "load-not-prefix", "load", f"load() of the file gives {[cname(c) for c in lds['iter'][1:-1]]}; pushed {P}"))
         return fails
 
     # ---- simulated stops inside one operation
@@ -883,7 +946,11 @@ def witnesses(ctx):
     for key, ml, path in ((K_LATE, 2, "AAAOA"), (K_LATE, 1, "AAO"), (K_EMPTY, 2, "OC"), (K_EMPTY, 2, "OPAA"),
                           (K_EMPTY, 1, "O"), (K_DOUBLE, 2, "OAAACC"), (K_DOUBLE, 1, "AOCC"),
                           (K_STALE, (2, "t", True), "OPAAAAC"), (K_STALE, (1, "t.ZIP", True), "OAAC"),
-                          (K_STALE, (2, "t.zip", True), "AOAAAC")):
+                          (K_STALE, (2, "t.zip", True), "AOAAAC"),
+                          # witnesses of len_after_failed_spill_refuted / wrong_entry_after_clean_up_refuted
+                          ("OptimiserHistory|after-clean_up:len", 1, "OAUA"),
+                          ("OptimiserHistory|after-clean_up:wrong-entry", 1, "OAAUPA"),
+                          ("OptimiserHistory|after-clean_up:wrong-entry", 2, "OAAAUPAC")):
         im, recs = run_path(ml, path)
         fails = [f for r in recs for f in r["fails"]]
         ctx.count("former-defect-witness", (key, path), True,
@@ -922,7 +989,7 @@ def reuse_oracles(ctx):
         ctx.count("reuse", ("from_file", n), True, sample={"kind": "from_file", "n": n})
         try:
             o = CRFOptimiser.from_file("reuse_trj.zip")
-            ok = (o._maxiter == 7 and len(o._history) == n and float(o._history.final[3]) == 0.7 + 0.01 * (n - 1)
+            ok = (o._maxiter == 7 and deep_equal(params["conv_tol"], o.conv_tol, "conv_tol") is None and len(o._history) == n and float(o._history.final[3]) == 0.7 + 0.01 * (n - 1)
                   and float(o._history.final.e) == -1.0 - 0.001 * (n - 1) and o.iteration == n - 1
                   and [float(c[3]) for c in o._history] == [0.7 + 0.01 * t for t in range(n)])
             if not ok:
@@ -978,6 +1045,13 @@ def edge_oracles(ctx):
     h.add(mk_item(0))
     check("slice", raises(lambda: h[0:1], NotImplementedError), "slicing is not rejected with NotImplementedError")
     check("non-int-index", raises(lambda: h["0"], ValueError), "a str index is not rejected with ValueError")
+    try:
+        r = icode(h[np.int64(0)])
+    except ValueError:
+        r = 16
+    except Exception as e:  # noqa
+        r = type(e).__name__
+    check("numpy-int-index", r == 16, f"h[np.int64(0)] gives {r}: neither the entry nor the documented ValueError")
     # '.zip' is appended by open and by load; an existing file is replaced; the path survives chdir
     for f in ("edge_trj.zip", "edge_trj2.zip"):
         if os.path.exists(f):
@@ -1002,6 +1076,13 @@ def edge_oracles(ctx):
             got = [icode(c) for c in l]
     except Exception as e:  # noqa
         got = type(e).__name__
+    try:
+        os.makedirs("edge_dir", exist_ok=True)
+        lr = [icode(c) for c in OptimiserHistory.load(os.path.join("edge_dir", "..", "edge_trj.zip"))]
+    except Exception as e:  # noqa
+        lr = type(e).__name__
+    shutil.rmtree("edge_dir", ignore_errors=True)
+    check("load-relative-path", got != [16, 17, 18, 19] or lr == got, f"load('edge_dir/../edge_trj.zip') gives {lr}")
     stray = os.listdir("edge_sub")
     shutil.rmtree("edge_sub", ignore_errors=True)
     check("chdir-and-suffix", got == [16, 17, 18, 19] and not stray,
@@ -1014,6 +1095,259 @@ def edge_oracles(ctx):
     for f in ("edge_trj.zip", "edge_trj2.zip"):
         if os.path.exists(f):
             os.remove(f)
+    return fails
+
+
+# --------------------------------------------------------------------------- what is stored is stored completely
+def deep_equal(a, b, path=""):
+    """None when equal, else the path of the first difference (recursive: arrays, containers, objects by __dict__)"""
+    if a is b:
+        return None
+    if type(a) is not type(b):
+        return f"{path}: type {type(a).__name__} vs {type(b).__name__}"
+    if isinstance(a, np.ndarray):
+        if a.shape != b.shape or not np.array_equal(np.asarray(a), np.asarray(b)):
+            return f"{path}: array values"
+        da, db = getattr(a, "__dict__", None), getattr(b, "__dict__", None)
+        return deep_equal(da, db, path) if (da is not None or db is not None) else None
+    if isinstance(a, dict):
+        if sorted(map(str, a)) != sorted(map(str, b)):
+            return f"{path}: keys {sorted(map(str, a))} vs {sorted(map(str, b))}"
+        for k in a:
+            r = deep_equal(a[k], b[k], f"{path}.{k}")
+            if r:
+                return r
+        return None
+    if isinstance(a, (list, tuple)):
+        if len(a) != len(b):
+            return f"{path}: length"
+        for i, (x, y) in enumerate(zip(a, b)):
+            r = deep_equal(x, y, f"{path}[{i}]")
+            if r:
+                return r
+        return None
+    if isinstance(a, float):
+        return None if (a == b or (a != a and b != b)) and getattr(a, "__dict__", None) == getattr(b, "__dict__", None) \
+            else f"{path}: {a!r} vs {b!r}"
+    if hasattr(a, "__dict__") and not callable(a):
+        return deep_equal(vars(a), vars(b), path)
+    try:
+        return None if a == b else f"{path}: {a!r} vs {b!r}"
+    except Exception:  # noqa
+        return f"{path}: not comparable"
+
+
+def fidelity_items():
+    """coordinate sets of the kinds optimisers really push: every one is stored and must come back whole"""
+    from autode.opt.coordinates import CartesianCoordinates, DIC
+    from autode.opt.coordinates.dic import DICWithConstraints
+    from autode.values import PotentialEnergy
+    x0 = np.array([0.0, 0.0, 0.0, 1.0, 0.0, 0.0, 0.0, 1.1, 0.0])
+    out = []
+
+    def cart(k):
+        return CartesianCoordinates(x0 + 0.01 * k)
+    c = cart(0); c.e = PotentialEnergy(-1.0); c.g = np.arange(9) / 8.0; c.h = np.eye(9) * 2.0
+    out.append(("cartesian e,g,h", c))
+    c = cart(1); c.e = PotentialEnergy(-1.125); c.g = np.arange(9) / 4.0; c.h_inv = np.eye(9) * 0.25
+    out.append(("cartesian e,g and the INVERSE Hessian only", c))
+    c = cart(2); c.e = PotentialEnergy(-1.25)
+    out.append(("cartesian energy only", c))
+    out.append(("cartesian bare", cart(3)))
+    c = cart(4); c.e = PotentialEnergy(-1.5); c.g = np.ones(9); c.did_translation = True; c.note = {"step": 4, "tag": "x"}
+    out.append(("cartesian with extra attributes set by an optimiser", c))
+    for name, cls, k in (("DIC", DIC, 5), ("DICWithConstraints", DICWithConstraints, 6)):
+        d = cls.from_cartesian(cart(k))
+        d.e = PotentialEnergy(-2.0 - k / 8.0)
+        d.update_g_from_cart_g(np.arange(9) / 16.0)
+        d.update_h_from_cart_h(np.eye(9) * 0.5)
+        out.append((f"{name} e,g,h", d))
+    d = DIC.from_cartesian(cart(7)); d.e = PotentialEnergy(-3.0)
+    out.append(("DIC energy only", d))
+    return out
+
+
+def fidelity_oracles(ctx):
+    """every kind of item / a realistic parameter dict through memory, spill, close, load, from_file: compared
+    attribute by attribute (class, array, units, the whole __dict__ recursively) with what was pushed"""
+    import copy
+    from autode.opt.optimisers.base import OptimiserHistory
+    from autode.opt.optimisers.crfo import CRFOptimiser
+    fails = []
+    params = dict(CRFOptimiser(maxiter=7, conv_tol="loose").optimiser_params)
+    extra = lambda: {"label": "fidelity", "nested": {"a": [1, 2.5, None], "b": (True, "x")}, "alpha": 0.125}  # noqa
+    params.update(extra())
+    pref = dict(CRFOptimiser(maxiter=7, conv_tol="loose").optimiser_params)
+    pref.update(extra())
+    for ml in (1, 2, 3):
+        items = fidelity_items()
+        # the reference is BUILT a second time (copy/pickle use the very hooks under test)
+        ref = [(nm, type(c), np.array(c, copy=True), dict(c.__dict__)) for nm, c in fidelity_items()]
+
+        def compare(where, i, got):
+            nm, cls, arr, dct = ref[i]
+            ctx.count("item-fidelity", (ml, where, i), True, sample={"maxlen": ml, "where": where, "item": nm})
+            attr = None
+            if got is None:
+                attr, d = "none", "returned None"
+            elif type(got) is not cls:
+                attr, d = "class", f"class {type(got).__name__} instead of {cls.__name__}"
+            elif not np.array_equal(np.asarray(got), arr):
+                attr, d = "values", "coordinate values differ"
+            else:
+                d = deep_equal(dct, dict(got.__dict__), "")
+            if d:
+                attr = attr or (d.split(":")[0].strip(". ").split(".")[0].split("[")[0] or "object")
+                fails.append((f"OptimiserHistory|item-fidelity:{attr}", "item-fidelity",
+                              f"maxlen={ml}, item {i} ({nm}) read {where}: {d}"))
+
+        for f in ("fid_trj.zip",):
+            if os.path.exists(f):
+                os.remove(f)
+        h = OptimiserHistory(maxlen=ml)
+        h.open("fid_trj.zip")
+        h.save_opt_params(params)
+        try:
+            for _, c in items:
+                h.add(c)
+            n = len(items)
+            for i in range(n):
+                compare("before close (spilled)" if i < n - ml else "before close (in memory)", i, h[i])
+            for i, got in enumerate(h):
+                compare("by iteration", i, got)
+            h.close()
+            for i in range(n):
+                compare("after close", i, h[i])
+            l = OptimiserHistory.load("fid_trj.zip")
+            for i in range(n):
+                compare("after reload", i, l[i])
+            compare("after reload (final)", n - 1, l.final)
+            compare("after reload (penultimate)", n - 2, l.penultimate)
+            for where, got in (("live", h.get_opt_params()), ("after reload", l.get_opt_params())):
+                ctx.count("item-fidelity", (ml, "params", where), True)
+                d = deep_equal(pref, got, "params")
+                if d:
+                    fails.append(("OptimiserHistory|params-fidelity", "params-fidelity", f"maxlen={ml}, optimiser parameters {where}: {d}"))
+            if deep_equal(pref, params, "params"):
+                fails.append(("OptimiserHistory|params-fidelity", "params-fidelity", "save_opt_params modified the dict it was given"))
+        except Exception as e:  # noqa
+            fails.append(("OptimiserHistory|item-fidelity:raised", "item-fidelity",
+                          f"maxlen={ml}: {type(e).__name__}: {e} while storing / reading realistic items"))
+        if os.path.exists("fid_trj.zip"):
+            os.remove("fid_trj.zip")
+    return fails
+
+
+# --------------------------------------------------------------------------- a file operation fails
+class _Fault(OSError):
+    pass
+
+
+def fault_oracles(ctx):
+    """one opening of the trajectory file for writing fails (full disk, permissions ...): the operation must raise,
+    change nothing that can be observed, and the life must go on as if it had not been attempted."""
+    fails = []
+    for ml in (1, 2, 3):
+        for path in ("OPAAAAC", "AOAAPAC", "OAAAPAAC"):
+            nwrite = None
+            for k in range(len(path)):
+                im = Impl(ml, True)
+                _root_record(im)
+                raised = None
+                for i, op in enumerate(path):
+                    if i == k and op in "APC":
+                        flat0, before = im.prev_flat, (open(im.path, "rb").read() if os.path.exists(im.path) else None)
+                        snap = im.snapshot()
+                        _PROXY.fail_writes = _Fault("injected: cannot open the trajectory file for writing")
+                        try:
+                            code, exc = im.apply(op)
+                        finally:
+                            hit, _PROXY.fail_writes = _PROXY.fail_hit, None
+                            _PROXY.fail_hit = False
+                        if not hit:
+                            im.restore(snap)         # this operation does not write: nothing to inject
+                        else:
+                            ctx.count("fault-injection", (ml, path, k), True, sample={"maxlen": ml, "ops": path, "failing": k})
+                            sobj = obs_obj(im.obj)
+                            flat = flat_obj(sobj) + obs_fs(im.path)
+                            after = open(im.path, "rb").read() if os.path.exists(im.path) else None
+                            n0 = len(flat_obj(sobj))
+                            if exc is None:
+                                fails.append(("OptimiserHistory|fault:swallowed", "fault", f"maxlen={ml} ops={path}: operation {k} ({op}) "
+                                              "could not open the file for writing but returned normally"))
+                            if flat0[:n0] != flat[:n0] or before != after:
+                                fails.append((f"OptimiserHistory|fault:failed-{op}-changed-state", "fault",
+                                              f"maxlen={ml} ops={path}: operation {k} ({op}) raised {exc} (the file could not be "
+                                              f"opened for writing) but changed the trajectory: len {sobj['len']}, closed "
+                                              f"{sobj['closed']}, {len(sobj['mem'])} in memory"))
+                            im.restore(snap)         # go on from the state before the failed attempt
+                    r = im.step(op)
+                    for f in r["fails"]:
+                        fails.append(f)
+    return fails
+
+
+def reuse_unclosed_oracles(ctx):
+    """NDOptimiser.from_file / CalculationExecutorO.run on the file of a run that stopped: a clean error or the
+    stored prefix - never anything else"""
+    from autode.opt.optimisers.base import OptimiserHistory
+    from autode.opt.optimisers.crfo import CRFOptimiser
+    from autode.opt.coordinates import CartesianCoordinates
+    from autode.values import PotentialEnergy
+    from autode.exceptions import CalculationException
+    import autode as ade
+    from autode.calculations.executors import CalculationExecutorO
+    from autode.wrappers.keywords import OptKeywords
+    fails = []
+    params = CRFOptimiser(maxiter=9, conv_tol="loose").optimiser_params
+
+    def coords(t):
+        c = CartesianCoordinates(np.array([0.0, 0.0, 0.0, 0.7 + 0.01 * t, 0.0, 0.0]))
+        c.e = PotentialEnergy(-1.0 - 0.001 * t)
+        c.g = np.array([0.01 * t, 0.0, 0.0, -0.01 * t, 0.0, 0.0])
+        return c
+
+    for ml in (1, 2):
+        for save, n in ((False, 0), (True, 0), (True, 1), (True, ml), (True, ml + 1), (True, ml + 3)):
+            mol = ade.Molecule(atoms=[ade.Atom("H"), ade.Atom("H", x=0.9)], name="c20h2u")
+            ex = CalculationExecutorO(name="c20stop", molecule=mol, method=ade.methods.XTB(), keywords=OptKeywords())
+            name = ex._opt_trajectory_name
+            if os.path.exists(name):
+                os.remove(name)
+            h = OptimiserHistory(maxlen=ml)
+            h.open(name)
+            if save:
+                h.save_opt_params(params)
+            for t in range(n):
+                h.add(coords(t))
+            del h                                   # the run stops here: never closed
+            stored = max(0, n - ml)
+            ctx.count("reuse", ("stopped", ml, save, n), True, sample={"kind": "stopped run", "maxlen": ml, "params": save, "adds": n})
+            what = f"file of a stopped run (maxlen {ml}, params {'stored' if save else 'not stored'}, {n} adds => {stored} entries on disk)"
+            try:
+                o = CRFOptimiser.from_file(name)
+                got = [float(c[3]) for c in o._history]
+                if got != [0.7 + 0.01 * t for t in range(stored)] or o._maxiter != 9 or deep_equal(params["conv_tol"], o.conv_tol, "conv_tol"):
+                    fails.append(("OptimiserHistory|from-file-stopped-run", "from_file", f"{what}: from_file gives entries {got}, maxiter {o._maxiter}"))
+            except (FileNotFoundError, ValueError):
+                if save:
+                    fails.append(("OptimiserHistory|from-file-stopped-run", "from_file", f"{what}: from_file raised although parameters are stored"))
+            except Exception as e:  # noqa
+                fails.append(("OptimiserHistory|from-file-stopped-run", "from_file", f"{what}: from_file raised {type(e).__name__}: {e}"))
+            try:
+                ex.run()
+                ok = stored >= 1 and float(mol.coordinates[1][0]) == 0.7 + 0.01 * (stored - 1) \
+                    and float(mol.energy) == -1.0 - 0.001 * (stored - 1)
+                if not ok:
+                    fails.append(("OptimiserHistory|executor-stopped-run", "executor", f"{what}: the executor took x={float(mol.coordinates[1][0])}, "
+                                  f"E={mol.energy} - not the last stored entry"))
+            except (FileNotFoundError, ValueError, CalculationException):
+                if save and stored >= 1:
+                    fails.append(("OptimiserHistory|executor-stopped-run", "executor", f"{what}: the executor raised although entries are stored"))
+            except Exception as e:  # noqa
+                fails.append(("OptimiserHistory|executor-stopped-run", "executor", f"{what}: the executor raised {type(e).__name__}: {e}"))
+            if os.path.exists(name):
+                os.remove(name)
     return fails
 
 
@@ -1039,10 +1373,12 @@ def run(ctx):
     wit = witnesses(ctx)
     for key, ml, path, fails in wit:
         col.fails(ml, path, fails)
-    ctx.log(f"former defect witnesses (repaired by 24aa35f): {sum(1 for w in wit if w[3])} of {len(wit)} fail")
+    ctx.log(f"witnesses of former / refuted defects: {sum(1 for w in wit if w[3])} of {len(wit)} fail")
     # 3. reuse by NDOptimiser.from_file / CalculationExecutorO
-    for f in reuse_oracles(ctx) + edge_oracles(ctx):
+    for f in reuse_oracles(ctx) + edge_oracles(ctx) + fidelity_oracles(ctx) + reuse_unclosed_oracles(ctx):
         col.fails(0, "<reuse>", [f])
+    for f in fault_oracles(ctx):
+        col.fails(0, "<fault>", [f])
 
     # 4. exhaustive enumeration on the implementation (parallel) ...
     depths = {1: 5, 2: 5, 3: 5} if quick else {1: 7, 2: 7, 3: 7}
@@ -1126,6 +1462,10 @@ def run(ctx):
             ln = ctx.rng.randint(8, 30)
             w = ctx.rng.choice(("AAAAAAOPCLUD", "AAAAAAAAOPCD", "OAPCLUD", "AAAAOAAAAPAAACLD"))
             seqs.append((ml, "".join(ctx.rng.choice(w) for _ in range(ln)), quick))
+        # two-digit member names (coords_10 ...) are reached on every run, not by luck
+        seqs += [(1, "OP" + "A" * 13 + "CL", quick), (2, "AO" + "A" * 13 + "PCL", quick),
+                 ((3, "t", True), "O" + "A" * 15 + "CLC", quick), (1, "O" + "A" * 12 + "L", quick),
+                 (2, "OP" + "A" * 14 + "UAC", quick)]
         for r in pool.map(task_sequence, seqs, chunksize=4):
             col.add_stats(r["stats"])
             for path, cops, n, fails, code, changed in r["nodes"]:
@@ -1184,7 +1524,7 @@ def run(ctx):
     concrete = 0
     for key, (ln, ml, path, name, what) in sorted(col.fail_first.items()):
         observed.add(key)
-        rep = {"kind": "reuse" if path == "<reuse>" else "operation-sequence", "maxlen": norm_cfg(ml)[0],
+        rep = {"kind": "reuse" if path in ("<reuse>", "<fault>") else "operation-sequence", "maxlen": norm_cfg(ml)[0],
                "open_name": norm_cfg(ml)[1], "earlier_archive_present": norm_cfg(ml)[2], "ops": path, "oracle": name,
                "legend": "O=open A=add(next tag) P=save_opt_params C=close L=replace by load() U=clean_up "
                          "D=toggle the working directory between the scratch dir and its sub-directory",
@@ -1251,7 +1591,7 @@ def replay(ctx, obj):
     rep = obj.get("replay", {})
     path = rep.get("shrunk_ops") or rep.get("ops")
     if rep.get("kind") == "reuse":
-        fl = reuse_oracles(ctx) + edge_oracles(ctx)
+        fl = reuse_oracles(ctx) + edge_oracles(ctx) + fidelity_oracles(ctx) + reuse_unclosed_oracles(ctx) + fault_oracles(ctx)
         for key, name, what in fl:
             print(f"     FAIL {key}: {what}")
         print(f"replay: from_file / executor reuse: {len(fl)} failures; stored: {obj.get('what')}")
@@ -1291,22 +1631,31 @@ MANIFEST = {
                  "induction over operation lists) + bounded-exhaustive step-by-step model/implementation correspondence "
                  "on the real file system with simulated stops",
     "level_text": ("Machine-checked theorems (coq/C20/Props.v, closed under the global context) over an executable model of "
-                   "OptimiserHistory and its zip file, for EVERY operation sequence of one object life, every window size "
-                   ">= 1 and any item type: len = number pushed; with a file every valid index (also negative) returns the "
-                   "pushed entry whether in memory or spilled (invariant disk ++ memory = pushed, |memory| <= maxlen), other "
-                   "indices raise IndexError; without a file the last maxlen are returned and earlier ones reported lost; "
-                   "iteration in order and reversed; close-then-load gives the same length, entries, final, penultimate "
-                   "and parameters (also for an empty trajectory and after repeated close); add after close / second open "
-                   "/ open after entries were dropped / second parameter store / foreign file are rejected without "
-                   "changing anything; each operation is at most one archive commit, and after a stop following any number "
-                   "of operations load raises a documented error or returns a prefix of what was pushed; an archive left "
-                   "by an earlier run under the same name is untouched before open() and entirely replaced by it."),
-    "level_note": ("Trusted: Coq kernel; the hand model (tied on every run by running every operation sequence up to length "
-                   "5 (thorough 7) and state-deduplicated to 6/8 on the real class and comparing every observable after every step with "
-                   "the model under vm_compute); the atomic-or-unreadable assumption for one ZipFile session (probed after "
-                   "every low-level write and on torn/truncated images; the model's ValueError for an unreadable file "
-                   "stands for ValueError or BadZipFile); pickle round trip of items; OS-level write reordering, "
-                   "maxlen=None/0 and concurrent writers are outside. Sequences with clean_up, object replacement by "
-                   "load are covered by the correspondence only, not by the theorems. The three defects repaired by /repo "
-                   "commit 24aa35f are guarded by dedicated oracles and regression inputs."),
+                   "OptimiserHistory and its zip file, for EVERY operation sequence of one object life WITHOUT clean_up, every "
+                   "window size >= 1, any item type and any archive left by an earlier run: len = number pushed; WITH a "
+                   "backing file (opened before the (maxlen+1)-th add; a later open is refused) every valid index (also "
+                   "negative) returns the pushed entry whether in memory or spilled (invariant disk ++ memory = pushed, "
+                   "|memory| <= maxlen), other indices raise IndexError, iteration in order and reversed, close-then-load "
+                   "gives the same length, entries, final, penultimate (the live object has one only for maxlen >= 2) and "
+                   "parameters, also for an empty trajectory, after repeated close and for any further operations on the "
+                   "reloaded object; misuse (add after close, second open, late open, second parameter store, foreign file) "
+                   "is rejected without changing anything; an earlier archive is untouched before open() and replaced by it; "
+                   "after a stop BETWEEN two operations load raises a documented error or returns a prefix (partial: see "
+                   "note). For EVERY state and operation: an operation that raises leaves object and file unchanged; for "
+                   "every sequence on one object, clean_up included: len = number of adds that returned. Without a file "
+                   "older entries are answered with None (documented by the class; every_index_without_file_refuted)."),
+    "level_note": ("Trusted: Coq kernel; the hand model (tied on every run by source pins on every modelled function and the "
+                   "pickling hooks, and by running every operation sequence up to length 5 (thorough 7), state-deduplicated "
+                   "to 6/8, fixed long sequences reaching two-digit member names and random ones on the real class, comparing "
+                   "every observable after every step with the model under vm_compute). NOT proved, only exercised: stops "
+                   "inside an operation (atomic-or-unreadable ZipFile session assumed; probed after every low-level write "
+                   "and on torn/truncated images; the model's ValueError for an unreadable file stands for ValueError or "
+                   "BadZipFile); that a stored item comes back WHOLE (class, values, energy, gradient, Hessian or inverse "
+                   "Hessian, every attribute; Cartesian, DIC, DICWithConstraints items, realistic parameter dicts) is checked "
+                   "by the item-fidelity oracle on the implementation only - items are opaque to the model; lives with "
+                   "clean_up have two theorems (raising_operation_changes_nothing, len_counts_accepted_adds) and otherwise "
+                   "implementation oracles (never another entry, load gives a prefix); failing file operations (injected "
+                   "OSError): oracles only; file-name handling, chdir, "
+                   "NDOptimiser.from_file and CalculationExecutorO reuse incl. files of stopped runs: oracles only. "
+                   "maxlen=None runs as window 126, maxlen=0 and concurrent writers are outside."),
 }
